@@ -1,6 +1,6 @@
 (* C10 -- List markers determine list nesting (partial: see MANIFEST level text). *)
 From Rimu Require Import Base Unicode Regex RegexAnalysis RegexParse Str Types Tables Guards State Inline Block
-  Frame FrameBlock FrameInst OptionsLemmas MiscLemmas MoreLemmas Plain TableFacts RegexSem MatchLemmas Placeholder TaintInline NoRaise NoRaiseTop Taint Locality.
+  Frame FrameBlock FrameInst OptionsLemmas MiscLemmas MoreLemmas Plain TableFacts RegexSem MatchLemmas Placeholder TaintInline NoRaise NoRaiseTop Taint Locality Plain PlainDoc ListDoc.
 
 (* bulleted, numbered and definition items produce ul/ol/dl with li or dt/dd (the generated list table) *)
 Theorem C10_list_table :
@@ -66,3 +66,21 @@ Theorem C10_list_independent_of_what_follows : forall fuel suf doc n it rd o nn 
   renderList fuel doc n it (rd ++ suf) s = Ok ((o, nn, rd' ++ suf), s').
 Proof. intros fuel suf doc n. exact (proj1 (lists_suffix fuel suf doc n)). Qed.
 Print Assumptions C10_list_independent_of_what_follows.
+
+(* END TO END: the one-line document "- item" (item over the safe alphabet, starting and ending with a non-space, of any length)
+   renders to <ul><li>item</li></ul>, with the stack of open list markers empty afterwards and nothing else in the session
+   changed: no line-block pattern matches the line, the first list pattern recognises the marker (one derivation, exact
+   semantics), the list is opened with the marker pushed, the item loop finds the end of input, the item text is rendered inline,
+   the list is closed with the marker popped *)
+Theorem C10_single_item_list : forall n item s, quiet_default s -> li_item_ok item ->
+  doc_render (S (S (S (S (S (S (S n))))))) (li_line item) s =
+  Ok ($"<ul><li>" ++ escape item ++ $"</li></ul>", set_listids s []).
+Proof. exact single_item_list_document. Qed.
+Print Assumptions C10_single_item_list.
+
+Example C10_ex_single_item :
+  match doc_render 9 $"- one item, 1 > 0" (document_init S0) with
+  | Ok (html, _) => html = $"<ul><li>one item, 1 &gt; 0</li></ul>"
+  | _ => False
+  end.
+Proof. vm_compute. reflexivity. Qed.
